@@ -31,7 +31,7 @@ def policy : List (String × Guard) := [
   ("SrvReq.status", .own "SrvReq"),
   ("SrvReq.next", .via "Conn"), ("SrvReq.prev", .via "Conn"), ("SrvReq.flushreq", .via "Conn"),
   -- fid reference count
-  ("SrvFid.refcount", .own "SrvFid"), ("SrvFid.destroyed", .own "SrvFid"),
+  ("SrvFid.refcount", .own "SrvFid"), ("SrvFid.destroyed", .own "SrvFid"), ("SrvFid.pending", .own "SrvFid"),
   -- server: connection set
   ("Srv.conns", .own "Srv"),
   -- client: pending list and sticky error
@@ -51,6 +51,7 @@ def exempt : List (String × String × String) := [
   ("initOsusers", "osUsers.users", "package initialisation, before any goroutine"),
   ("initOsusers", "osUsers.groups", "package initialisation, before any goroutine"),
   ("Conn.FidNew", "SrvFid.refcount", "the fid was allocated two lines above and is published by the table insert that follows, under the connection lock"),
+  ("Conn.FidNew", "SrvFid.pending", "as refcount: set before the fid is published"),
   ("Clnt.Rpcnb", "Clnt.err", "read again after the unlock of a value seen non-nil under the lock; err is only ever set while nil (write-once)"),
   ("Clnt.recv", "Req.next", "error fan-out over the list detached from the client under the lock: private to the receiver"),
   ("Clnt.ReqFree", "Req.next", "the request has left the pending list: private to its caller"),
